@@ -1,4 +1,5 @@
 import ServlinVerif.Props.C01
+import ServlinVerif.Props.C01Bound
 open Servlin.C01
 #print axioms C01_total
 #print axioms C01_sched_irrelevant
@@ -7,3 +8,4 @@ open Servlin.C01
 #print axioms C01_legacy_panics
 #print axioms findSlice_eq_firstBlankLine
 #print axioms Servlin.HeadModel.readHeadOp_eq_D
+#print axioms C01_reads_bounded
